@@ -169,6 +169,11 @@ Fixpoint ieval (e : expr) (fr : frame) (g : glob) {struct e} : res eout :=
       | r => r
       end
   | EPanic => Res (EX (VErr "go panic")) fr g        (* recovered by TryStatement.guarded *)
+  | EMatch s m =>                                     (* MatchStatement.GetValue *)
+      match ieval s fr g with
+      | Res (EV v) fr g => ieval_arms v m fr g
+      | r => r
+      end
   end
 with ieval_args (a : args) (fr : frame) (g : glob) {struct a} : res (list value + value) :=
   match a with
@@ -180,6 +185,30 @@ with ieval_args (a : args) (fr : frame) (g : glob) {struct a} : res (list value 
           | Res (inl vs) fr g => Res (inl (v :: vs)) fr g
           | r => r
           end
+      | Res (EX x) fr g => Res (inr x) fr g
+      | Fuel => Fuel
+      end
+  end
+(* the arms in order; within an arm the conditions in order, compared with isStrictEqual; the first
+   hit evaluates that arm's expression; no hit: the default block, else null *)
+with ieval_arms (v : value) (m : marms) (fr : frame) (g : glob) {struct m} : res eout :=
+  match m with
+  | MNil => Res (EV VNull) fr g
+  | MDefault e => ieval e fr g
+  | MCons c e r =>
+      match ieval_conds v c fr g with
+      | Res (inl true) fr g => ieval e fr g
+      | Res (inl false) fr g => ieval_arms v r fr g
+      | Res (inr x) fr g => Res (EX x) fr g
+      | Fuel => Fuel
+      end
+  end
+with ieval_conds (v : value) (c : args) (fr : frame) (g : glob) {struct c} : res (bool + value) :=
+  match c with
+  | ANil => Res (inl false) fr g
+  | ACons e r =>
+      match ieval e fr g with
+      | Res (EV w) fr g => if same_value v w then Res (inl true) fr g else ieval_conds v r fr g
       | Res (EX x) fr g => Res (inr x) fr g
       | Fuel => Fuel
       end
